@@ -22,6 +22,7 @@ import Driver.ExtDecline
 import Driver.Convert
 import Driver.ConvertH
 import Driver.ConvertX
+import Driver.ConvertF
 import Driver.CMFrag
 namespace Driver
 
@@ -52,6 +53,7 @@ def handle (line : String) : String :=
   | "convert" :: rest => handleConvert rest
   | "converth" :: rest => handleConvertH rest
   | "convertx" :: rest => handleConvertX rest
+  | "convertf" :: rest => handleConvertF rest
   | "cmfrag" :: rest => handleCMFrag rest
   | _ => bad
 
